@@ -4,6 +4,7 @@ generated code calls into (DESIGN.md 2.4).
 ContractMonitor (C03): checks the documented calling contract on every dynamic
 operator invocation, then delegates to the real operator.
 """
+import ast
 import collections
 import inspect
 import sys
@@ -78,6 +79,7 @@ class ContractMonitor(object):
   def __init__(self, log_getter=None, expected_directives=None, poison_non_outputs=True):
     self.counters = collections.Counter()
     self.violations = []
+    self.suspects = []      # decided by the caller once the outcome of the run is known
     self.log_getter = log_getter
     self.expected_directives = expected_directives  # marker -> {kw: value-as-source} or None
     self.poison_non_outputs = poison_non_outputs
@@ -233,6 +235,26 @@ class ContractMonitor(object):
       return False
     self.counters['state_invocations_judged'] += 1
     self.counters['state_entries_judged'] += len(st1)
+    # 2a. a composite state symbol (o.p, d['k'], a[i.j]) denotes a variable of the enclosing function only if the
+    # names it is built from are bound when the operator is entered
+    for n in symbol_names:
+      if n.isidentifier():
+        continue
+      try:
+        support = sorted({x.id for x in ast.walk(ast.parse(n, mode='eval')) if isinstance(x, ast.Name)})
+      except SyntaxError:
+        continue
+      for sname in support:
+        try:
+          sv = self._frame_eval(fr, sname)
+        except NameError:
+          sv = None
+          unbound_now = True
+        else:
+          unbound_now = isinstance(sv, self.Undefined)
+        if unbound_now:
+          self.suspects.append('%s: state symbol %r is built from %r, which is unbound when the operator is entered (names %r)' % (
+              op, n, sname, symbol_names))
     # 2. position-by-position denotation
     has_undef_composite = False
     for i, n in enumerate(symbol_names):
